@@ -102,7 +102,12 @@ def c12(run, tier):
                         bad |= run.violation(dict(base, what="the injected panic was not reported by the call", observed=cls), rp)
                     continue
                 if cls == "Panic":
-                    bad |= run.violation(dict(base, what="a later call panics", after_panic=(j > i), text=y.get("text", "")[:70]), rp); continue
+                    if sname == "slg" and x["class"] == "Panic" and "Negative subgoal had delayed_subgoals" in y.get("text", ""):
+                        # the as-is specification predicts the engine's own panic (named deviation, KF4)
+                        bad |= run.violation({"solver": "slg", "deviation": "SLG_NegativeOnDelayedAnswer", "what": "panic", "text": y.get("text", "")[:80]}, rp)
+                    else:
+                        bad |= run.violation(dict(base, what="a later call panics", after_panic=(j > i), text=y.get("text", "")[:70]), rp)
+                    continue
                 if sname == "slg":
                     if cls != x["class"]:
                         bad |= run.violation(dict(base, what="result differs from specification", after_panic=(j > i), expected=x["class"], observed=cls), rp)
@@ -116,7 +121,8 @@ def c12(run, tier):
                 elif cls != x["truth"]:
                     bad |= run.violation(dict(base, what="answer after a panic differs from a fresh solver's", after_panic=(j > i),
                                               expected=x["truth"], observed=cls), rp)
-            if sname == "slg" and not bad:
+            own_panic = any(y.get("class") == "Panic" for j, y in enumerate(o["results"]) if j != i)
+            if sname == "slg" and not bad and not own_panic:     # the engine's own panic emits no Panic event: not a complete trace
                 traces.append(([e for e in o.get("events", []) if e["ev"] not in ("Def", "DbCall")], rp))
             if k >= 3:
                 run.sample({"program": job["program"], "ops": job["ops"], "solver": sname, "spec": [[x["goal"], x["kind"], x["k"], x["class"], x["nev"], x["lost"]] for x in r["results"]],
